@@ -662,6 +662,8 @@ func (e *FieldAccessExpr) execListAccess(idx int, left any) (any, error) {
 
 func (e *FieldReferenceExpr) Execute(kv KVPair, ctx *ExecuteCtx) (any, error) {
 	if ctx != nil {
+		// Cached results are only valid for the row they are computed on
+		ctx.BindRow(kv.Key)
 		cval, have := ctx.GetFieldResult(e.Name.Data)
 		if have {
 			ctx.UpdateHit()
